@@ -237,7 +237,7 @@ def c11_jobs(tier):
     jobs += [J("hsms", "ZZ_C11_alias", scn=16, h=0, fuel=400_000_000)]
     jobs += [J("hsms", "ZZ_C11_alias", scn=14, h=0, kind=k) for k in range(7)]
     jobs += [J("hsms", "ZZ_C11_alias", scn=15, h=0, kind=k) for k in range(3)]
-    jobs += [J("hsms", "ZZ_C11_alias", scn=11, h=h, timeout_s=(1500 if tier == "quick" else 7200)) for h in ([1, 2] if tier == "quick" else [1, 2, 3])]
+    jobs += [J("hsms", "ZZ_C11_alias", scn=11, h=h, timeout_s=(1500 if tier == "quick" else 7200)) for h in [1, 2, 3]]
     return jobs
 
 
@@ -250,7 +250,7 @@ def c05_jobs(tier):
     for typ in INT_TYPES + [1, 3]:
         for neg in (0, 1):
             if tier == "quick":
-                combos = [(0, 1), (0, 3), (1, 2), (3, 8)] + ([(2, 3)] if typ in (5, 11, 1) else [])
+                combos = [(0, 1), (0, 3), (0, 4), (1, 2), (1, 4), (3, 8), (2, 3)]
             else:
                 combos = [(0, 1), (0, 2), (0, 3), (0, 5), (1, 1), (1, 2), (1, 4), (1, 8), (2, 3), (2, 6), (3, 8), (3, 9), (3, 16)]
             for cls, k in combos:
@@ -273,7 +273,7 @@ def c05_jobs(tier):
     for typ in range(1, 14):
         for which in range(9):
             jobs.append(J("sml", "ZZ_C05_wrongtype", typ=typ, which=which))
-    for k in ([0, 1, 2, 3] if tier == "quick" else [0, 1, 2, 3, 4, 5]):
+    for k in ([0, 1, 2, 3, 4] if tier == "quick" else [0, 1, 2, 3, 4, 5]):
         jobs.append(J("sml", "ZZ_C05_string", k=k, **T))
     jobs.append(J("sml", "ZZ_C05_mixed", **T))
     jobs.append(J("sml", "ZZ_C05_bool"))
@@ -289,7 +289,7 @@ def c05_jobs(tier):
 def c15_jobs(tier):
     jobs = []
     T = dict(timeout_s=(1500 if tier == "quick" else 7200))
-    types = [0, 3, 1, 2, 5, 9, 12] if tier == "quick" else list(range(14))
+    types = list(range(14))
     ks = [(1, 1)] if tier == "quick" else [(1, 1), (2, 2), (3, 1), (5, 4)]
     for typ in types:
         for form in range(4):
@@ -461,7 +461,7 @@ def c12_jobs(tier):
             jobs.append(J("ast", "ZZ_C12_float", w=w, gt=gt))
     for kind, ws in ((0, (1, 8)), (1, (2, 8)), (2, (1,))):
         for w in ws:
-            for gt in ((0, 4, 5, 9) if tier == "quick" else range(10)):
+            for gt in range(10):
                 jobs.append(J("ast", "ZZ_C12_fill", kind=kind, w=w, gt=gt))
     jobs.append(J("ast", "ZZ_C12_binary_int"))
     for k in ([0, 1, 2, 3] if tier == "quick" else [0, 1, 2, 3, 8, 9]):
@@ -669,7 +669,7 @@ _b("C04",
    "k<=4; n<=3; symbolic constants in the templates (full-range 32/64-bit decimal round trips were tried and dropped: z3 answers unknown on the digit arithmetic)",
    ["4- and 8-byte integer values outside the boundary menu", "float values outside the menu (strconv's shortest-digit printing and parsing run concretely, they are not encoded)", "messages whose single ellipsis carries a non-canonical name", "names the lexer reads as another token (excluded by the property)"])
 _b("C05",
-   "integer literals of 10 item types x sign: decimal k<=3 symbolic digits, hex 2, octal 3, binary 8, and literals straddling the limit of every width (limit/base with 1 symbolic trailing digit) in all four bases, literals straddling 2^64-1 and one digit longer than it; signs that no digit follows; one arbitrary byte directly behind a literal of 8 classes; two literals per item; wrong-kind literals; strings k<=3 bytes, mixed strings/codes; booleans; float menu in F4/F8 and mixed; radix digits outside the radix",
+   "integer literals of 10 item types x sign: decimal k<=4 symbolic digits, hex 4, octal 3, binary 8, and literals straddling the limit of every width (limit/base with 1 symbolic trailing digit) in all four bases, literals straddling 2^64-1 and one digit longer than it; signs that no digit follows; one arbitrary byte directly behind a literal of 8 classes; two literals per item; wrong-kind literals; strings k<=4 bytes, mixed strings/codes; booleans; float menu in F4/F8 and mixed; radix digits outside the radix",
    "decimal k<=5, hex 8, octal 6, binary 16 symbolic digits; straddling literals with 1-2 symbolic trailing digits; strings k<=5",
    ["decimal literals with a leading zero, '+' on unsigned items, '-0' on unsigned items (unspecified)", "control characters inside quoted strings other than CR/LF", "the text->float mapping of strconv.ParseFloat beyond the menu"])
 _b("C06",
@@ -693,20 +693,20 @@ _b("C10",
    "generated: 3 leaf kinds with counts 0..2; three levels; nested lists with 2 items before, counts 0..1; flat lists of <=3 items over 4 leaf kinds, counts 0..3; fixed: counts 0..101, chains up to 6",
    ["larger templates and repeat counts", "negative repeat counts"])
 _b("C11",
-   "16 scenarios (constructor/producer arguments, accessor and encoder results of messages and of items of all 14 formats with 0/1/2 values, fill maps, variadic slices, shared sub-items, decoder input, window arguments with spare capacity, list templates with an ellipsis anywhere, two fills of one template, control requests answered twice) x one byte position (all explored) xor an arbitrary non-zero mask; observe-derive-observe histories of length <=2",
-   "histories of length <=3",
+   "16 scenarios (constructor/producer arguments, accessor and encoder results of messages and of items of all 14 formats with 0/1/2 values, fill maps, variadic slices, shared sub-items, decoder input, window arguments with spare capacity, list templates with an ellipsis anywhere, two fills of one template, control requests answered twice) x one byte position (all explored) xor an arbitrary non-zero mask; observe-derive-observe histories of length <=3",
+   "same",
    ["histories longer than the scenario sequences", "concurrent mutation (C17)"])
 _b("C12",
-   "every factory x every accepted Go argument type with the argument fully symbolic (1 element per call); fills of leaf variables (3 kinds x 4 Go types); binary strings k<=3 arbitrary characters, also behind a concrete run of 6..70 digits; ASCII strings of k<=3 and 7, 8, 9, 16, 17, 33 arbitrary bytes; names k<=4 arbitrary bytes in 7 node kinds and with index accessors k<=2; ellipsis placement incl. two ellipses among plain variables x 5 map orders; duplicate names; message fields unconstrained; message fill keeps the header; message names k<=3",
-   "all 10 Go types in fills; k<=6 names; binary strings k<=9",
+   "every factory x every accepted Go argument type with the argument fully symbolic (1 element per call); fills of leaf variables (3 kinds x 10 Go types); binary strings k<=3 arbitrary characters, also behind a concrete run of 6..70 digits; ASCII strings of k<=3 and 7, 8, 9, 16, 17, 33 arbitrary bytes; names k<=4 arbitrary bytes in 7 node kinds and with index accessors k<=2; ellipsis placement incl. two ellipses among plain variables x 5 map orders; duplicate names; message fields unconstrained; message fill keeps the header; message names k<=3",
+   "k<=6 names; binary strings k<=9",
    ["message names with non-ASCII whitespace", "binary string forms containing '_' (unspecified)"])
 _b("C13",
    "header routine and byte-length routine for every count 0 <= n < 2^40 per format (one symbolic 64-bit count); factories at 0, 1, 3 elements and around 255 payload bytes for 14 formats (ASCII content partly arbitrary bytes; encoding requested twice with the first result overwritten); the first size beyond the limit for all 14 formats (ASCII also through FillVariables); decoder read-back: all 1..3 length bytes arbitrary with 0/255/256 bytes present, mixed widths",
    "factories also around 65,535 bytes and at the largest constructible size for 7 formats and the fill path (2M-16M elements)",
    ["executing element loops of items above the materialised sizes", "lists of 16,777,216 elements made by ellipsis expansion", "messages longer than one 16,777,215-byte item or two 9 MB items (a decoder limit on the total message size above that is not seen: seeded change C13-d2)"])
 _b("C15",
-   "7 item types x 4 declaration forms x counts 0..2, 1 symbolic digit per bound (+ blank-padded variant with 2 digits, + one arbitrary byte of {SP,TAB,LF,CR} as padding, + one element being a variable, + 20-digit bounds that overflow int); list children carry declarations of their own; ASCII variables: bounds kept, printed, enforced on fill; direct construction with arbitrary ints; bounds through ellipsis expansion",
-   "14 types, counts 0..4, up to 5 symbolic digits per bound",
+   "14 item types x 4 declaration forms x counts 0..2, 1 symbolic digit per bound (+ blank-padded variant with 2 digits, + one arbitrary byte of {SP,TAB,LF,CR} as padding, + one element being a variable, + 20-digit bounds that overflow int); list children carry declarations of their own; ASCII variables: bounds kept, printed, enforced on fill; direct construction with arbitrary ints; bounds through ellipsis expansion",
+   "counts 0..4, up to 5 symbolic digits per bound",
    ["declarations preceded by whitespace (position shift is C08)", "counts above 4"])
 _b("C16",
    "leaves n<=2 and lists depth 1 width<=2 / depth 0 width 3 over 4 kinds, every variable/ellipsis placement, x 3 map orders; shared sub-items; duplicate names through fills; ASCII k<=3 arbitrary bytes; messages around a bare item of 10 kinds with/without a variable, directly and inside 1-2 lists; header routine for every size (never an error within the limit); one U1 item with 66,000 variables",
